@@ -85,7 +85,7 @@ fn random_string(r: &mut Rng) -> String {
                 1 => r.below(0x80) as u32,
                 2 => r.below(0x800) as u32,
                 3 => 0x10000 + r.below(0x100000) as u32,
-                4 => *r.pick(&[0xFEFFu32, 0xFFFE, 0xFFFF, 0xD7FF, 0xE000, 0x10FFFF, 0, 9, 10, 13, 0x18, 0x1F, 0x7F, 0x80, 0xA0, 0xAD, 0xFF]),
+                4 => *r.pick(&[0xFEFFu32, 0xFFFE, 0xFFFF, 0xFFFD, 0xFFFD, 0xFFFC, 0xD7FF, 0xE000, 0x10FFFF, 0, 9, 10, 13, 0x18, 0x1F, 0x7F, 0x80, 0xA0, 0xAD, 0xFF]),
                 _ => r.below(0x110000) as u32,
             };
             if let Some(ch) = char::from_u32(c) {
